@@ -77,6 +77,7 @@ ROOT_FILES = {
     'dirindex': None, 'dirindex/index.html': None, 'dirindex/index.html/inner.txt': 5,
     'vardir.txt': 6, 'vardir.txt.gz': None,
     'home.htm': 5, 'sub/home.htm': 6,
+    'docs.v1': None, 'docs.v1/index.html': 6, 'docs.v1/a.txt': 4, 'docs.v1/img.d': None, 'docs.v1/img.d/x.png': 3,
 }
 OUTSIDE = {
     'sentinel.txt': 7, 'secret': None, 'secret/passwd': 7, 'root.gz': 6, 'index.html': 7, 'file.txt': 7,
@@ -241,7 +242,7 @@ OUTSIDE_NAMES = ['sentinel.txt', 'secret', 'passwd', 'secret/passwd', 'root.gz',
 INSIDE_NAMES = ['index.html', 'file.txt', 'big.css', 'same.js', 'only.txt', 'a%20b.txt', 'a b.txt', '%c3%a9.txt',
                 '%c3%83%c2%a9.txt', '%e2%82%ac.txt', 'back%5cslash.txt', 'back\\slash.txt', '%252e%252e', 'nl%0a',
                 'sub', 'sub', 'x.css', 'deep', 'z.js', 'noindex', 'only.txt', 'dirindex', 'vardir.txt', 'home.htm',
-                'file.txt.gz', 'nothere', 'sub/x.css', 'sub/deep/z.js', 'sub/deep', 'file.txt/']
+                'file.txt.gz', 'nothere', 'sub/x.css', 'sub/deep/z.js', 'sub/deep', 'file.txt/', 'docs.v1', 'img.d', 'a.txt']
 PREFIXES = {'route': ['/static/'] * 12 + ['/static', '/', '/other/', '/static//', '//static/', '/static/../static/', '/Static/',
                                          '/%73tatic/', '/static%2f', '', 'static/'],
             'catchall': ['/'] * 8 + ['', '//', 'x'],
@@ -257,7 +258,9 @@ def _abs_pieces():
 REAL_PATHS = ['', 'index.html', 'file.txt', 'file.txt', 'big.css', 'same.js', 'only.txt', 'a%20b.txt', '%c3%a9.txt',
               '%e2%82%ac.txt', 'back%5cslash.txt', '...', '..a', '%252e%252e', 'nl%0a', 'sub', 'sub/', 'sub/index.html',
               'sub/x.css', 'sub/x.css', 'sub/deep', 'sub/deep/', 'sub/deep/z.js', 'noindex', 'noindex/', 'noindex/only.txt',
-              'dirindex/', 'vardir.txt', 'home.htm', 'sub/home.htm', 'file.txt.gz', 'x.css', 'deep/z.js', 'index.html/']
+              'dirindex/', 'vardir.txt', 'home.htm', 'sub/home.htm', 'file.txt.gz', 'x.css', 'deep/z.js', 'index.html/',
+              'docs.v1', 'docs.v1/', 'docs.v1/a.txt', 'docs.v1/img.d', 'docs.v1/img.d/', 'docs.v1/img.d/x.png',
+              'dirindex/index.html', 'vardir.txt.gz']
 MOUNT_PREFIX = {'route': '/static/', 'catchall': '/', 'view': '/', 'subpath': '/'}
 
 
@@ -307,7 +310,7 @@ def _gen_path(rng, mount):
 SUB_ELEMS = ['..', '.', '', 'a/b', '../sentinel.txt', 'sub/x.css', '/etc/passwd', 'x\x00', '\x00', 'file.txt\x00.gz',
              '..\x00', '\\', '..\\', 'sentinel.txt', 'secret', 'passwd', '...', '..a', '%2e%2e', ' ', '/', '//',
              'index.html', 'file.txt', 'sub', 'x.css', 'deep', 'z.js', 'noindex', 'dirindex', 'big.css', 'same.js',
-             'only.txt', 'vardir.txt', 'é.txt', '€.txt', 'a b.txt', 'nl\n', 'nothere', 'home.htm']
+             'only.txt', 'vardir.txt', 'é.txt', '€.txt', 'a b.txt', 'nl\n', 'nothere', 'home.htm', 'docs.v1', 'img.d']
 
 
 def gen_case(rng):
